@@ -25,14 +25,31 @@ pub fn call_entry(k: usize, s: &str) -> Result<bool, Panic> {
     }
 }
 
-pub struct C18 { seed: u64, short: Vec<String>, n_canon: u64, n_mut: u64, n_rand: u64 }
+/// Long inputs (tens to hundreds of kilobytes): `opener x n + core + closer x n`. They are parsed on
+/// a thread with an 8 MB stack - what the main thread of a program has by default - so that
+/// "no input makes a parser abort" is observed under the stack a user's call would have.
+/// (opener, core, closer, n, description)
+pub const DEEP: [(&str, &str, &str, usize, &str); 8] = [
+    ("[", "a", "]", 20_000, "20000 nested list brackets"),
+    ("(", "a(b)", ")", 40_000, "40000 nested parentheses around a goal"),
+    ("not(", "a(b)", ")", 10_000, "10000 nested not(...)"),
+    ("f(", "a", ")", 20_000, "20000 nested complex terms"),
+    ("[a, ", "b", "]", 5_000, "5000 nested two-element lists"),
+    ("a, ", "b", "", 20_000, "a flat list of 20000 comma-separated items"),
+    ("a(1); ", "b(2)", "", 5_000, "a disjunction of 5000 goals"),
+    ("a", "b", "", 200_000, "an atom of 200000 characters"),
+];
+
+fn deep_spec(k: usize) -> String { let (o, core, c, n, what) = DEEP[k]; format!("{:?} x {} + {:?} + {:?} x {}  ({})", o, n, core, c, n, what) }
+
+pub struct C18 { seed: u64, short: Vec<String>, n_canon: u64, n_mut: u64, n_rand: u64, n_nest: u64 }
 
 impl C18 {
     pub fn new(tier: Tier, seed: u64) -> C18 {
         let alpha: Vec<char> = "()[],;.|\\$\"a".chars().collect();
         let short = all_strings(&alpha, 3);
         let (c, m, r) = if tier == Tier::Quick { (30_000, 80_000, 40_000) } else { (400_000, 1_500_000, 600_000) };
-        C18 { seed, short, n_canon: c, n_mut: m, n_rand: r }
+        C18 { seed, short, n_canon: c, n_mut: m, n_rand: r, n_nest: if tier == Tier::Quick { 6_000 } else { 60_000 } }
     }
     pub fn canon_text(&self, r: &mut Rng) -> String {
         match r.below(9) {
@@ -66,10 +83,39 @@ impl C18 {
             }
         }
     }
+    /// Deeply nested input: k openers of one or several kinds, a core, the matching closers;
+    /// optionally perturbed. At most 160 characters.
+    pub fn nested_text(&self, r: &mut Rng, idx: u64) -> String {
+        const OPEN: [(&str, &str); 8] = [("(", ")"), ("[", "]"), ("f(", ")"), ("not(", ")"), ("[a, ", "]"), ("(a, ", ")"), ("g(a, ", ")"), ("[a | ", "]")];
+        let cores = ["a", "a(b)", "$X", "a, b", "a; b", "p($X), q($Y)", "$X = 1", "", "1.5", "[]"];
+        let core = cores[r.below(cores.len())];
+        // the first cases walk every opener kind at every depth that fits
+        let (kinds, depth): (Vec<usize>, usize) = if idx < 8 * 75 { (vec![(idx % 8) as usize], 1 + (idx / 8) as usize) }
+            else { let n = r.range(1, 3); ((0..n).map(|_| r.below(8)).collect(), r.range(2, 75)) };
+        let mut open = String::new(); let mut close = String::new();
+        for d in 0..depth {
+            let (o, c) = OPEN[kinds[d % kinds.len()]];
+            if open.len() + close.len() + o.len() + c.len() + core.len() > 160 { break; }
+            open.push_str(o); close.insert_str(0, c);
+        }
+        let mut s = format!("{}{}{}", open, core, close);
+        match r.below(6) {
+            0 => { s.push('.'); s = format!("p($X) :- {}", s); }
+            1 => { let k = r.below(4); for _ in 0..k { s.pop(); } }          // unbalanced: closers missing
+            2 => { s.push_str(&")".repeat(r.below(3))); }                    // unbalanced: extra closers
+            _ => {}
+        }
+        s.chars().take(160).collect()
+    }
     fn pick(&self, idx: u64) -> (String, &'static str) {
+        // the long inputs come first: a case that aborts the worker then costs no finished work
+        if idx < DEEP.len() as u64 { let (o, core, c, n, _) = DEEP[idx as usize]; return (format!("{}{}{}", o.repeat(n), core, c.repeat(n)), "long"); }
+        let idx = idx - DEEP.len() as u64;
         let ns = self.short.len() as u64;
         if idx < ns { return (self.short[idx as usize].clone(), "exhaustive-short"); }
         let idx = idx - ns;
+        if idx < self.n_nest { let mut r = Rng::for_case(self.seed, 181, idx); return (self.nested_text(&mut r, idx), "nested"); }
+        let idx = idx - self.n_nest;
         let mut r = Rng::for_case(self.seed, 18, idx);
         if idx < self.n_canon { return (self.canon_text(&mut r), "canonical"); }
         if idx < self.n_canon + self.n_mut { let t = self.canon_text(&mut r); return (mutate(&mut r, &t), "mutated"); }
@@ -79,13 +125,14 @@ impl C18 {
 }
 
 impl Workload for C18 {
-    fn total(&self) -> u64 { self.short.len() as u64 + self.n_canon + self.n_mut + self.n_rand }
+    fn total(&self) -> u64 { self.short.len() as u64 + DEEP.len() as u64 + self.n_nest + self.n_canon + self.n_mut + self.n_rand }
     fn rule(&self) -> String {
-        format!("each input string is given to all {} parser entry points under catch_unwind: all {} strings of length <= 3 over the 12-character syntax alphabet, {} canonical texts (terms, goals, rules, argument lists), {} mutations of such texts (1-4 edits), {} random strings over the syntax alphabet up to 160 characters; non-trivial when at least one entry point returned Ok or the input has >= 2 syntax characters; distinct by input string",
-                ENTRY.len(), self.short.len(), self.n_canon, self.n_mut, self.n_rand)
+        format!("each input string is given to all {} parser entry points under catch_unwind: all {} strings of length <= 3 over the 12-character syntax alphabet, 8 long inputs of 10-400 kilobytes (deep nesting of brackets, parentheses, not(...), complex terms; flat lists, disjunctions, one huge atom) parsed on a thread with the default 8 MB main-thread stack, {} deeply nested texts (each of 8 opener kinds - parentheses, brackets, complex terms, not(...), list and argument prefixes - at every depth that fits into 160 characters, then random mixtures of kinds, cores and unbalanced variants), {} canonical texts (terms, goals, rules, argument lists), {} mutations of such texts (1-4 edits), {} random strings over the syntax alphabet up to 160 characters; non-trivial when at least one entry point returned Ok or the input has >= 2 syntax characters; distinct by input string",
+                ENTRY.len(), self.short.len(), self.n_nest, self.n_canon, self.n_mut, self.n_rand)
     }
     fn exhaustive_part(&self) -> Option<String> { Some(format!("all {} strings of length <= 3 over ()[],;.|\\$\"a", self.short.len())) }
     fn describe(&mut self, idx: u64) -> String {
+        if idx < DEEP.len() as u64 { return json::obj(&[("input_spec", json::esc(&deep_spec(idx as usize))), ("kind", json::esc("long"))]); }
         let (s, kind) = self.pick(idx);
         json::obj(&[("input", json::esc(&s)), ("kind", json::esc(kind))])
     }
@@ -93,8 +140,26 @@ impl Workload for C18 {
         let (s, kind) = self.pick(idx);
         let mut out = Outcome::new(hash_str(&s));
         out.evals = 0;
-        out.sample = json::obj(&[("input", json::esc(&s)), ("kind", json::esc(kind))]);
+        out.sample = self.describe(idx);
         let mut any_ok = false;
+        if kind == "long" {
+            // on a thread with the default main-thread stack (8 MB); an overflow aborts the worker
+            // process, which the supervisor isolates and reports as a crash of this case
+            let s2 = s.clone();
+            let h = std::thread::Builder::new().stack_size(8 << 20).spawn(move || { install_panic_hook(); (0..ENTRY.len()).map(|k| call_entry(k, &s2)).collect::<Vec<_>>() }).expect("spawn");
+            let res = match h.join() { Ok(r) => r, Err(_) => { out.verdict = Verdict::Inconclusive("the long-input thread could not be joined".into()); return out; } };
+            for (k, r) in res.into_iter().enumerate() {
+                out.evals += 1;
+                match r {
+                    Ok(true) => { any_ok = true; out.count("returned_ok", 1); }
+                    Ok(false) => out.count("returned_err", 1),
+                    Err(p) => { out.count("panics", 1); out.violate(format!("panic|{}|{}|{}", ENTRY[k], p.file(), p.kind()), json::obj(&[("entry", json::esc(ENTRY[k])), ("input_spec", json::esc(&deep_spec(idx as usize))), ("panic", json::esc(&p.msg)), ("at", json::esc(&p.loc))])); }
+                }
+            }
+            out.count("long_inputs", 1);
+            out.nontrivial = true; let _ = any_ok;
+            return out;
+        }
         for k in 0..ENTRY.len() {
             out.evals += 1;
             match call_entry(k, &s) {
